@@ -4,19 +4,33 @@ C01 — a circuit compiles to the ordered product of its components.
 Model: LW.Model.Circuit (compile, mirrors CompiledCircuit.add) and LW.Model.CircuitSpec
 (orderedProd, the property's right-hand side).  Theorems: LW/Properties/C01.lean.
 
-Per generated construction program (one circuit, primitives + unitary blocks, ~15 % invalid
-calls) the implementation is compared with the model on: per-call outcome (ok / exception class),
-n_modes, U_full (vs `compile`) and U (vs `orderedProd`, the specification); and the property's
-own clauses are evaluated on the implementation: U_full unitary, exactly one extra mode per loss
-element, U is the leading block of U_full, a rejected call leaves the observables unchanged.
+Per generated construction program (primitives + unitary blocks + building-block circuits, ~15 %
+invalid calls) the implementation is compared with the model on: per-call outcome (ok / exception
+class), n_modes, U_full (vs `compile`) and U (vs `orderedProd`, the specification); and the
+property's own clauses are evaluated on the implementation: U_full unitary, exactly one extra mode
+per loss element, U is the leading block of U_full, a rejected call leaves the observables unchanged.
+
+A program is a list of ops on a pool of objects: the circuit under construction `c`, unitary blocks
+`u*`, and building blocks `b*` / `w*` (circuits that themselves hold grouped unitary blocks or a
+grouped building block) which are placed in `c` several times, grouped and ungrouped, at mode 0 and
+at modes > 0, and edited between placements.  The pseudo-op ["read", "*"] marks a point at which
+U / U_full / n_modes of EVERY live object are read and compared with the model's state at that point
+(the driver reports the state after every call); there is always a read at the end.  Three read
+policies: after every call, sparse, end only — a reported matrix must not depend on when, or how
+often, it was asked for before.  Streams: (1) a directed corpus (reads around every mutating method;
+tiled building blocks), (2) random programs.
 """
 
 from __future__ import annotations
 
+import json
+import random
+
 import numpy as np
 
 import circgen as cg
-from core import Ctx, ddmin, mat_close, parse_mat
+import circgen_ext as cx
+from core import CIRCLE, PYTH, Ctx, ddmin, mat_close, parse_mat
 
 TRUSTED = [
     "Lean 4.33 kernel; Mathlib v4.33 as compiled on this image",
@@ -28,71 +42,302 @@ TRUSTED = [
 ASSUMPTIONS = [
     "model scalars are exact Gaussian rationals (Pythagorean c,s; rational points on the unit circle); "
     "the code sees the corresponding floats",
-    "programs: <= 8 modes, <= 40 calls per circuit in the correspondence check (theorems are unbounded)",
+    "programs: <= 8 modes, <= 40 calls on the circuit plus <= 3 building blocks of <= 4 modes in the correspondence "
+    "check (theorems are unbounded)",
+    "a Parameter that is never re-set stands for its value (re-setting is C10's subject)",
 ]
+
+READ = ["read", "*"]
+
+
+# --------------------------------------------------------------------------- generation
+
+
+def _unitary_add(rng, prog: list, tgt: str, n: int, uid: str, p_over: float = 0.15, p_group: float = 0.3) -> None:
+    """unitary block through add(Unitary(u), mode)"""
+    sz = rng.randint(1, n)
+    mode = rng.randint(0, n - sz)
+    if rng.random() < p_over:
+        mode = n - sz + rng.randint(1, 2)  # oversize -> rejected
+    prog.append(["unitary", uid, cg.mat_json(cg.exact_unitary(rng, sz))])
+    prog.append(["add", tgt, uid, mode, rng.random() < p_group])
+
+
+def _block(rng, prog: list, bid: str, size: int, ptab: dict, uid: str) -> None:
+    """building block: a circuit with a few primitives and (mostly) a grouped unitary block inside"""
+    prog.append(["new", bid, size])
+    for _ in range(rng.randint(0, 2)):
+        prog.append(cx.with_param(rng, cg.rand_prim_op(rng, bid, size), ptab, 0.15))
+    if rng.random() < 0.85:
+        sz = rng.randint(1, size)
+        room = size - sz
+        m = rng.randint(1, room) if room > 0 and rng.random() < 0.7 else 0
+        prog.append(["unitary", uid, cg.mat_json(cg.exact_unitary(rng, sz))])
+        prog.append(["add", bid, uid, m, rng.random() < 0.8])
+    for _ in range(rng.randint(0, 2)):
+        prog.append(cx.with_param(rng, cg.rand_prim_op(rng, bid, size), ptab, 0.15))
+
+
+def _place(rng, prog: list, n: int, bid: str, size: int, p_over: float = 0.12, p_group: float = 0.3) -> None:
+    room = n - size
+    if rng.random() < p_over:
+        m = room + rng.randint(1, 2)
+    elif room > 0 and rng.random() < 0.75:
+        m = rng.randint(1, room)
+    else:
+        m = 0
+    prog.append(["add", "c", bid, m, rng.random() < p_group])
+
+
+def with_reads(rng, ops: list, policy: str | None = None) -> list:
+    policy = policy or rng.choice(["every", "every", "every", "sparse", "sparse", "end"])
+    if policy == "end":
+        return list(ops)
+    out = []
+    for op in ops:
+        out.append(op)
+        if policy == "every" or rng.random() < 0.25:
+            out.append(READ)
+    return out
 
 
 def gen_program(ctx: Ctx, rng) -> list:
     n = rng.randint(1, ctx.n(6, 8))
     k = rng.randint(0, ctx.n(14, 40))
     prog = [["new", "c", n]]
+    ptab: dict = {}
     nblk = 0
-    for _ in range(k):
-        if rng.random() < 0.12:
-            # unitary block through add(Unitary(u), mode)
-            sz = rng.randint(1, n)
-            mode = rng.randint(0, n - sz)
-            if rng.random() < 0.15:
-                mode = n - sz + rng.randint(1, 2)  # oversize -> rejected
+    blocks: dict = {}  # building-block id -> size
+    if n >= 2 and rng.random() < 0.4:
+        for j in range(rng.randint(1, 2)):
+            size = rng.randint(1, min(4, n - 1 if rng.random() < 0.85 else n))
             nblk += 1
-            uid = f"u{nblk}"
-            prog.append(["unitary", uid, cg.mat_json(cg.exact_unitary(rng, sz))])
-            prog.append(["add", "c", uid, mode, rng.random() < 0.3])
+            _block(rng, prog, f"b{j}", size, ptab, f"u{nblk}")
+            blocks[f"b{j}"] = size
+        if rng.random() < 0.3:
+            # depth 2: a wrapper that holds a building block as a group
+            b0 = rng.choice(sorted(blocks))
+            size = min(n, blocks[b0] + rng.randint(0, 1))
+            prog.append(["new", "w0", size])
+            prog.append(["add", "w0", b0, rng.randint(0, size - blocks[b0]), rng.random() < 0.85])
+            if rng.random() < 0.5:
+                prog.append(cg.rand_prim_op(rng, "w0", size))
+            blocks["w0"] = size
+        ctx.count("program:with-building-blocks")
+    p_herald = 0.04 if rng.random() < 0.3 else 0.0
+    for _ in range(k):
+        r = rng.random()
+        if blocks and r < 0.22:
+            bid = rng.choice(sorted(blocks))
+            _place(rng, prog, n, bid, blocks[bid])
+        elif blocks and r < 0.27:
+            bid = rng.choice(sorted(blocks))
+            prog.append(cg.rand_prim_op(rng, bid, blocks[bid], p_invalid=0.1))  # edit between placements
+        elif r < (0.35 if blocks else 0.12):
+            nblk += 1
+            _unitary_add(rng, prog, "c", n, f"u{nblk}")
+        elif r < (0.35 if blocks else 0.12) + p_herald:
+            prog.append(["herald", "c", rng.choice([0, 1, 2]), rng.randrange(n), rng.randrange(n)])
         else:
-            prog.append(cg.rand_prim_op(rng, "c", n, p_invalid=0.15))
+            prog.append(cx.with_param(rng, cg.rand_prim_op(rng, "c", n, p_invalid=0.15), ptab, 0.08))
+    return [prog[0], *with_reads(rng, prog[1:])]
+
+
+# ----- directed corpus
+
+
+def _prim_of(rng, cid: str, n: int, want: str) -> list:
+    """a valid primitive op of the wanted kind that changes the matrix (swaps: not the identity)"""
+    for _ in range(400):
+        op = cg.rand_prim_op(rng, cid, n)
+        kind = op[0]
+        if kind == "bs":
+            kind = "bs+loss" if op[7] else "bs"
+            if op[4] == "1":  # reflectivity 1 in the Rx convention is the identity
+                continue
+        elif kind == "ps":
+            kind = "ps+loss" if op[4] else "ps"
+            if op[3] in ("1,0", "1"):
+                continue
+        elif kind == "swaps" and all(a == b for a, b in op[2]):
+            continue
+        if kind == want:
+            return op
+    raise AssertionError(f"no {want} op generated for n={n}")
+
+
+MUTATORS = ["bs", "bs+loss", "ps", "ps+loss", "loss", "swaps", "barrier", "add-unitary", "add-unitary-grouped",
+            "add-block", "add-block-grouped", "herald", "edit-block-after-placement"]
+
+
+def directed_reads(rng, want: str) -> list:
+    """read — mutate — read for one mutating method, twice, with other calls around it: the matrix
+    reported after the call must contain the call's effect whatever was read before"""
+    n = rng.randint(3, 5)
+    prog: list = [["new", "c", n]]
+    ptab: dict = {}
+    blocks_first = want in ("add-block", "add-block-grouped", "edit-block-after-placement")
+    if blocks_first:
+        _block(rng, prog, "b0", rng.randint(1, n - 1), ptab, "u0")
+        size = prog[[op[1] for op in prog].index("b0")][2]
+    for _ in range(rng.randint(0, 2)):
+        prog.append(_prim_of(rng, "c", n, rng.choice(["bs", "ps", "swaps"])))
+    prog.append(READ)
+    for rep in range(2):
+        if want in ("bs", "bs+loss", "ps", "ps+loss", "loss", "swaps", "barrier"):
+            prog.append(_prim_of(rng, "c", n, want))
+        elif want.startswith("add-unitary"):
+            sz = rng.randint(1, n)
+            u = cg.exact_unitary(rng, sz, depth=2 * sz + 1)
+            prog.append(["unitary", f"u{rep + 1}", cg.mat_json(u)])
+            prog.append(["add", "c", f"u{rep + 1}", rng.randint(0, n - sz), want.endswith("grouped")])
+        elif want.startswith("add-block"):
+            prog.append(["add", "c", "b0", rng.randint(0 if rep else min(1, n - size), n - size), want.endswith("grouped")])
+        elif want == "herald":
+            prog.append(["herald", "c", rng.choice([0, 1]), rep, n - 1 - rep])
+        else:  # edit-block-after-placement: c must not follow later edits of the block
+            prog.append(["add", "c", "b0", rng.randint(0, n - size), bool(rep)])
+            prog.append(READ)
+            prog.append(_prim_of(rng, "b0", size, rng.choice(["ps", "loss"] + (["bs", "swaps"] if size > 1 else []))))
+        prog.append(READ)
+        if rep == 0 and rng.random() < 0.6:
+            prog.append(_prim_of(rng, "c", n, rng.choice(["bs", "ps", "swaps", "loss"])))
+            if rng.random() < 0.5:
+                prog.append(READ)
     return prog
+
+
+def directed_tiles(rng, depth2: bool) -> list:
+    """a building block holding a grouped unitary block, placed two or three times in a larger circuit
+    (ungrouped at modes > 0 first), with other components in between"""
+    sz = rng.randint(1, 2)
+    size = sz + rng.randint(0, 2)
+    n = size + rng.randint(2, 3) + (1 if depth2 else 0)
+    ops: list = [["unitary", "u0", cg.mat_json(cg.exact_unitary(rng, sz, depth=2 * sz + 1))], ["new", "b0", size]]
+    if rng.random() < 0.7:
+        ops.append(_prim_of(rng, "b0", size, rng.choice(["ps", "loss"] + (["bs"] if size > 1 else []))))
+    ops.append(["add", "b0", "u0", rng.randint(min(1, size - sz), size - sz), True])
+    tile, tsize = "b0", size
+    if depth2:
+        tsize = size + rng.randint(0, 1)
+        ops += [["new", "w0", tsize], ["add", "w0", "b0", rng.randint(0, tsize - size), True]]
+        if rng.random() < 0.5:
+            ops.append(_prim_of(rng, "w0", tsize, "ps"))
+        tile = "w0"
+    room = n - tsize
+    ops.append(["add", "c", tile, rng.randint(1, room), False])
+    ops.append(_prim_of(rng, "c", n, rng.choice(["bs", "ps", "swaps"])))
+    ops.append(["add", "c", tile, rng.randint(1, room), False])
+    if rng.random() < 0.6:
+        ops.append(["add", "c", tile, rng.randint(0, room), rng.random() < 0.5])
+    if rng.random() < 0.5:
+        ops.append(_prim_of(rng, "c", n, rng.choice(["bs", "loss"])))
+    return [["new", "c", n], *with_reads(rng, ops)]
+
+
+# --------------------------------------------------------------------------- one program
+
+
+def _check_obj(probs: list, cid: str, where: str, obs: dict, m: dict) -> None:
+    """clauses of the property on one object at one read point (`m`: the model's state there)"""
+    tag = f" [object {cid}, {where}]"
+    if "U_full" not in obs:
+        probs.append(f"oracle: valid program does not compile ({obs.get('U_error')})" + tag)
+        return
+    uf = obs["U_full"]
+    n_loss = m["loss_modes"]
+    if obs["n"] != m["n"]:
+        probs.append(f"corr: n_modes impl={obs['n']} model={m['n']}" + tag)
+    if uf.shape != (obs["n"] + n_loss, obs["n"] + n_loss):
+        probs.append(f"oracle: U_full has shape {uf.shape}, expected one extra mode per loss element ({n_loss})" + tag)
+        return
+    if not mat_close(uf.conj().T @ uf, np.eye(uf.shape[0])) or not mat_close(uf @ uf.conj().T, np.eye(uf.shape[0])):
+        probs.append("oracle: U_full is not unitary" + tag)
+    if not mat_close(obs["U"], uf[: obs["n"], : obs["n"]], 1e-12):
+        probs.append("oracle: U is not the leading block of U_full" + tag)
+    if not mat_close(obs["U"], parse_mat(m["U_spec"])):
+        probs.append("oracle: U differs from the ordered product of the documented component matrices" + tag)
+    if not mat_close(uf, parse_mat(m["U_full"])):
+        probs.append("corr: U_full differs from the model's compile" + tag)
 
 
 def run_case(ctx: Ctx, prog: list) -> list[str]:
     """returns a list of problem descriptions (empty = all clauses hold on this program)"""
-    probs = []
+    probs: list[str] = []
     pool: dict = {}
-    impl_res = []
+    params: dict = {}
+    impl_res: list = []
+    reads: list = []  # (index of the last real op done, {id: observables})
+    fresh = None  # observables of every object, valid while no call has been made since they were read
+    real = [op for op in prog if op[0] != "read"]
     for op in prog:
-        before = cg.observe(pool["c"]) if "c" in pool else None
-        r = cg.apply_op(pool, op)
+        if op[0] == "read":
+            if pool:
+                fresh = {cid: cg.observe(c) for cid, c in pool.items()}
+                reads.append((len(impl_res) - 1, fresh))
+            continue
+        r = cx.apply_op(pool, op, params)
         impl_res.append(r)
-        if r != "ok" and before is not None and "U_full" in before:
-            after = cg.observe(pool["c"])
-            if after["n"] != before["n"] or "U_full" not in after or not mat_close(after["U_full"], before["U_full"]):
-                probs.append(f"oracle: rejected call {op[0]} ({r}) changed the circuit")
-    mres = ctx.model.call({"op": "circ", "prog": prog, "observe": ["c"]})
+        if r != "ok" and fresh is not None:
+            for cid, before in fresh.items():
+                if cx.diff(before, cg.observe(pool[cid]), 1e-9) is not None:
+                    probs.append(f"oracle: rejected call {op[0]} ({r}) changed the circuit [object {cid}, call #{len(impl_res) - 1}]")
+        elif r == "ok":
+            fresh = None
+    reads.append((len(real) - 1, {cid: cg.observe(c) for cid, c in pool.items()}))
+    ids = [op[1] for op in real if op[0] in ("new", "unitary", "copy", "plus")]
+    mid = reads[:-1]
+    # the model's state at the read points.  Stepping the model is free, reporting the (exact) matrices
+    # of a long circuit is what costs: short programs get the state after every call in one request,
+    # long ones are compared at the end, at two read points chosen at random and at the first read
+    # point (if any) where the long-lived objects differ from a fresh, never-read rebuild of the same
+    # prefix (the reads in between are still performed on the implementation)
+    each = bool(mid) and (len(real) <= LONG or len(mid) <= 2)
+    mres = ctx.model.call({"op": "circ", "prog": real, "observe": ids, "each": each and len(mid) > 2})
     if impl_res != mres["results"]:
         idx = next(i for i, (a, b) in enumerate(zip(impl_res, mres["results"])) if a != b)
-        probs.append(f"corr: call #{idx} {prog[idx][:4]} impl={impl_res[idx]} model={mres['results'][idx]}")
+        probs.append(f"corr: call #{idx} {real[idx][:4]} impl={impl_res[idx]} model={mres['results'][idx]}")
         return probs
-    obs = cg.observe(pool["c"])
-    m = mres["final"]["c"]
-    if "U_full" not in obs:
-        probs.append(f"oracle: valid program does not compile ({obs.get('U_error')})")
-        return probs
-    uf = obs["U_full"]
-    n_loss = m["loss_modes"]
-    # property clauses on the implementation itself
-    if obs["n"] != m["n"]:
-        probs.append(f"corr: n_modes impl={obs['n']} model={m['n']}")
-    if uf.shape != (obs["n"] + n_loss, obs["n"] + n_loss):
-        probs.append(f"oracle: U_full has shape {uf.shape}, expected one extra mode per loss element ({n_loss})")
-        return probs
-    if not mat_close(uf.conj().T @ uf, np.eye(uf.shape[0])) or not mat_close(uf @ uf.conj().T, np.eye(uf.shape[0])):
-        probs.append("oracle: U_full is not unitary")
-    if not mat_close(obs["U"], uf[: obs["n"], : obs["n"]], 1e-12):
-        probs.append("oracle: U is not the leading block of U_full")
-    if not mat_close(obs["U"], parse_mat(m["U_spec"])):
-        probs.append("oracle: U differs from the ordered product of the documented component matrices")
-    if not mat_close(uf, parse_mat(m["U_full"])):
-        probs.append("corr: U_full differs from the model's compile")
+    if each and len(mid) > 2:
+        compare = [(k, snapshot, mres["snaps"][k]) for k, snapshot in reads]
+    else:
+        chosen = set(range(len(mid)))
+        if not each:
+            ctx.count("reads:long-program-compared-at-subset")
+            chosen = set(random.Random(f"{len(real)}-{len(prog)}").sample(range(len(mid)), 2))
+            for j, (k, snapshot) in enumerate(mid):
+                if j not in chosen and _differs_from_fresh(real, k, snapshot):
+                    ctx.count("reads:differs-from-fresh-rebuild")
+                    chosen.add(j)
+                    break
+        compare = []
+        for j in sorted(chosen):
+            k, snapshot = mid[j]
+            if k == len(real) - 1:
+                compare.append((k, snapshot, mres["final"]))
+            else:
+                compare.append((k, snapshot, ctx.model.call({"op": "circ", "prog": real[: k + 1], "observe": ids})["final"]))
+        compare.append((reads[-1][0], reads[-1][1], mres["final"]))
+    for k, snapshot, mstate in compare:
+        for cid, obs in snapshot.items():
+            m = mstate.get(cid)
+            if m is not None:
+                _check_obj(probs, cid, f"after call #{k}", obs, m)
+        if probs:
+            break
     return probs
+
+
+LONG = 16  # calls; up to here the model reports its state after every call
+
+
+def _differs_from_fresh(real: list, k: int, snapshot: dict) -> bool:
+    """rebuild the first k+1 calls in a fresh pool that is never read before, and compare"""
+    pool: dict = {}
+    params: dict = {}
+    for op in real[: k + 1]:
+        cx.apply_op(pool, op, params)
+    return any(cid in pool and cx.diff(obs, cg.observe(pool[cid]), 1e-9) is not None for cid, obs in snapshot.items())
 
 
 def classify(prog) -> tuple:
@@ -100,42 +345,74 @@ def classify(prog) -> tuple:
     return kinds
 
 
+def _stats(ctx: Ctx, prog: list) -> None:
+    ops = [op[0] for op in prog]
+    for k in set(ops):
+        ctx.count("op:" + k, ops.count(k))
+    if any(cx.param_key(op) is not None for op in prog):
+        ctx.count("program:with-Parameter")
+    nread = ops.count("read")
+    nreal = len(ops) - nread
+    ctx.count("reads:" + ("end-only" if nread == 0 else "after-every-call" if nread >= nreal - 1 else "sparse"))
+    placed: dict = {}
+    for op in prog:
+        if op[0] == "add" and op[1] == "c" and not op[2].startswith("u"):
+            placed[op[2]] = placed.get(op[2], 0) + 1
+            if op[3] > 0 and not op[4]:
+                ctx.count("place:block-ungrouped@m>0")
+    if any(v >= 2 for v in placed.values()):
+        ctx.count("program:block-placed-twice-or-more")
+
+
+def _one(ctx: Ctx, prog: list, sample: bool) -> None:
+    probs = run_case(ctx, prog)
+    _stats(ctx, prog)
+    nontriv = sum(1 for op in prog if op[0] in ("bs", "ps", "loss", "swaps", "add")) >= 3
+    ctx.case(repr(prog), nontriv, sample=prog if sample else None)
+    if probs:
+        ctx.count("programs_with_problems")
+
+        def still(sub):
+            p = [prog[0], *sub]
+            return cx.well_formed(p) and bool(run_case(ctx, p))
+
+        small = [prog[0], *ddmin(prog[1:], still)]
+        sprobs = run_case(ctx, small) or probs
+        oracle = [p for p in sprobs if p.startswith("oracle")]
+        if oracle:
+            kind = oracle[0].split(":", 1)[1].split(" [")[0].strip()[:60]
+            ctx.violation(oracle[0], {"program": small, "problems": sprobs},
+                          sig={"kind": kind, "ops": sorted({o[0] for o in small})})
+        else:
+            ctx.disagreement(sprobs[0], {"program": small, "problems": sprobs})
+
+
 def run(ctx: Ctx) -> None:
-    ctx.rule = ("random construction programs on one circuit (1-8 modes, 0-40 calls, all component kinds, both "
-                "conventions, unitary blocks via add(Unitary), ~15% invalid calls); non-trivial = at least 3 "
-                "accepted matrix-changing calls; distinct = distinct op list")
-    N = ctx.n(250, 3500)
+    ctx.rule = ("(1) directed corpus: read-mutate-read for every mutating method (bs, ps, loss, mode_swaps, barrier, "
+                "add of a unitary / of a building block, herald, edit of a block after placement) and tiled building "
+                "blocks holding grouped unitary blocks (depth 1 and 2); (2) random construction programs on one "
+                "circuit (1-8 modes, 0-40 calls, all component kinds, both conventions, unitary blocks via "
+                "add(Unitary), building blocks placed repeatedly, ~15% invalid calls) with U/U_full of every live "
+                "object read after every call / sparsely / at the end only; non-trivial = at least 3 "
+                "matrix-changing calls; distinct = distinct op list")
     rng = ctx.rng
+    for rep in range(ctx.n(2, 30)):
+        for want in MUTATORS:
+            if ctx.out_of_time():
+                break
+            ctx.count("corpus:reads-around:" + want)
+            _one(ctx, directed_reads(rng, want), sample=False)
+        for depth2 in (False, True):
+            ctx.count("corpus:tiles-depth" + ("2" if depth2 else "1"))
+            _one(ctx, directed_tiles(rng, depth2), sample=False)
+    N = ctx.n(250, 3500)
     for i in range(N):
         if ctx.out_of_time():
             break
-        prog = gen_program(ctx, rng)
-        probs = run_case(ctx, prog)
-        ops = [op[0] for op in prog]
-        for k in set(ops):
-            ctx.count("op:" + k, ops.count(k))
-        nontriv = sum(1 for op in prog if op[0] in ("bs", "ps", "loss", "swaps", "add")) >= 3
-        ctx.case(repr(prog), nontriv, sample=prog if i < 2 else None)
-        if probs:
-            ctx.count("programs_with_problems")
-
-            def still(sub):
-                p = [prog[0], *sub]
-                return cg.well_formed(p) and bool(run_case(ctx, p))
-
-            small = [prog[0], *ddmin(prog[1:], still)]
-            sprobs = run_case(ctx, small) or probs
-            oracle = [p for p in sprobs if p.startswith("oracle")]
-            if oracle:
-                ctx.violation(oracle[0], {"program": small, "problems": sprobs},
-                              sig={"kind": oracle[0].split(":")[1].strip()[:60], "ops": sorted({o[0] for o in small})})
-            else:
-                ctx.disagreement(sprobs[0], {"program": small, "problems": sprobs})
+        _one(ctx, gen_program(ctx, rng), sample=i < 2)
 
 
 def replay(ctx: Ctx, path: str) -> None:
-    import json
-
     data = json.load(open(path))
     probs = run_case(ctx, data["replay"]["program"])
     ctx.case("replay", True, sample=data["replay"]["program"])
